@@ -495,11 +495,15 @@ unsigned int ProcessExecutor::check()
                         std::ostringstream oss;
                         oss << "Child process exited with " << exitstatus;
                         reportInternalChildErr(childname, oss.str());
+                        // the child might have failed after it delivered its results
+                        ++result;
                     }
                 } else if (WIFSIGNALED(stat)) {
                     std::ostringstream oss;
                     oss << "Child process crashed with signal " << WTERMSIG(stat);
                     reportInternalChildErr(childname, oss.str());
+                    // the child might have crashed after it delivered its results
+                    ++result;
                 }
             }
         }
